@@ -900,6 +900,10 @@ func (e *Engine) specFunc(y *ECall, env *evalEnv) (Val, bool) {
 			e.vc.declFun(fn, sorts, "BV")
 			return Val{S: app(fn, as...), T: bvT}, true
 		}
+	case "bytescmp":
+		// bytescmp(a, b): bytes.Compare(a, b)
+		e.declBvCmp()
+		return Val{S: app("bv_cmp", e.specKey(arg(0), env), e.specKey(arg(1), env)), T: specInt}, true
 	case "jsonok":
 		// jsonok("pkg.Type", data): json.Unmarshal of data into a value of that type succeeds
 		if l, ok := y.Args[0].(*ELit); ok && len(y.Args) == 2 {
